@@ -79,7 +79,7 @@ type sPosting struct {
 }
 
 type input struct {
-	Kind      string                       `json:"kind"` // script validate string reverse handler
+	Kind      string                       `json:"kind"` // script validate string reverse handler bulk
 	Postings  []sPosting                   `json:"postings,omitempty"`
 	Unbounded bool                         `json:"unbounded,omitempty"`
 	Balances  map[string]map[string]string `json:"balances,omitempty"`
@@ -88,6 +88,7 @@ type input struct {
 	Timestamp string                       `json:"timestamp,omitempty"` // RFC3339
 	API       string                       `json:"api,omitempty"`       // v1 v2 bulk
 	Script    *string                      `json:"script,omitempty"`    // handler: script.plain of the request
+	Elements  []input                      `json:"elements,omitempty"` // bulk: the CREATE_TRANSACTION elements, in order
 	Str       bstr                         `json:"str,omitempty"`
 	StrKind   string                       `json:"str_kind,omitempty"` // address asset
 	Note      string                       `json:"note,omitempty"`
@@ -634,7 +635,8 @@ func doReverse(r *vx.Run, in input) {
 
 // ---- kind: handler ---------------------------------------------------------------------------------------------
 
-func requestBody(in input) []byte {
+// txBody is the JSON of one create-transaction request
+func txBody(in input) []byte {
 	body := map[string]any{}
 	if in.Postings != nil {
 		var ps []map[string]any
@@ -660,10 +662,111 @@ func requestBody(in input) []byte {
 		body["timestamp"] = in.Timestamp
 	}
 	b, _ := json.Marshal(body)
+	return b
+}
+
+func requestBody(in input) []byte {
+	b := txBody(in)
 	if in.API == "bulk" {
 		b, _ = json.Marshal([]map[string]any{{"action": "CREATE_TRANSACTION", "data": json.RawMessage(b)}})
 	}
 	return b
+}
+
+// matchCall: is the RunScript the backend received the one this request alone defines? Returns the model's outcome
+// (HPostings / HScript) or "" with the field that differs.
+func matchCall(in input, got ledger.RunScript) (res, differs string) {
+	if len(in.Postings) > 0 {
+		want := ledger.TxToScriptData(ledger.TransactionData{Postings: toPostings(in.Postings), Metadata: metaOf(in), Reference: in.Reference, Timestamp: tsOf(in)}, false)
+		switch {
+		case got.Plain != want.Plain || !reflect.DeepEqual(got.Vars, want.Vars):
+			return "", "postings"
+		case got.Reference != want.Reference:
+			return "", "reference"
+		case !got.Timestamp.Equal(want.Timestamp):
+			return "", "timestamp"
+		case !metaEqual(got.Metadata, want.Metadata):
+			return "", "metadata"
+		}
+		return "HPostings", ""
+	}
+	plain := ""
+	if in.Script != nil {
+		plain = *in.Script
+	}
+	switch {
+	case got.Plain != plain || len(got.Vars) != 0:
+		return "", "script"
+	case got.Reference != in.Reference:
+		return "", "reference"
+	case !got.Timestamp.Equal(tsOf(in)):
+		return "", "timestamp"
+	case !metaEqual(got.Metadata, metaOf(in)):
+		return "", "metadata"
+	}
+	return "HScript", ""
+}
+
+// ---- kind: bulk: several CREATE_TRANSACTION elements in one request; each must reach the backend as its own request ----
+
+func doBulk(r *vx.Run, in input) {
+	for _, e := range in.Elements {
+		for _, p := range e.Postings {
+			if !utf8.ValidString(string(p.Source)) || !utf8.ValidString(string(p.Destination)) || !utf8.ValidString(string(p.Asset)) {
+				return
+			}
+		}
+	}
+	var els []map[string]any
+	for _, e := range in.Elements {
+		els = append(els, map[string]any{"action": "CREATE_TRANSACTION", "data": json.RawMessage(txBody(e))})
+	}
+	body, _ := json.Marshal(els)
+	l := &fakeapi.Ledger{}
+	router := v2.NewRouter(&fakeapi.Backend{L: l}, &health.HealthController{}, metrics.NewNoOpRegistry(), auth.NewNoAuth())
+	req := httptest.NewRequest(http.MethodPost, "/l0/_bulk", bytes.NewReader(body))
+	rec := httptest.NewRecorder()
+	pan := ""
+	func() {
+		defer func() {
+			if x := recover(); x != nil {
+				pan = fmt.Sprint(x)
+			}
+		}()
+		router.ServeHTTP(rec, req)
+	}()
+	size := len(in.Elements)
+	if pan != "" || rec.Code >= 500 {
+		r.FailP("C09", "bulk:crash", in, fmt.Sprintf("status %d panic %q", rec.Code, pan), size)
+		r.Case("", in, "", false)
+		return
+	}
+	if len(l.Writes) != len(in.Elements) {
+		r.FailP("C09", "bulk:one-backend-call-per-create-element", in, fmt.Sprintf("%d calls for %d elements (status %d)", len(l.Writes), len(in.Elements), rec.Code), size)
+		r.Case("", in, "", false)
+		return
+	}
+	key, _ := json.Marshal(in)
+	for i, e := range in.Elements {
+		w := l.Writes[i]
+		if w.Kind != "CREATE_TRANSACTION" || w.Script == nil {
+			r.FailP("C09", "bulk:element-causes-another-write", in, fmt.Sprintf("element %d: %s", i, w.Kind), size)
+			continue
+		}
+		res, differs := matchCall(e, *w.Script)
+		if res == "" {
+			prev := "first-element"
+			if i > 0 {
+				prev = "later-element"
+			}
+			r.FailP("C09", "bulk:element-reaches-backend-as-other-than-its-own-request:"+differs+":"+prev, in,
+				fmt.Sprintf("element %d of %d: backend received %+v", i, len(in.Elements), *w.Script), size)
+			continue
+		}
+		hasScript := e.Script != nil && *e.Script != ""
+		r.Case(fmt.Sprintf("PCHandler ApiBulk %s %s %s", coqSPostings(e.Postings), vx.CoqBool(hasScript), res), in,
+			fmt.Sprintf("%s#%d", key, i), res == "HPostings")
+	}
 }
 
 func doHandler(r *vx.Run, in input) {
@@ -713,25 +816,12 @@ func doHandler(r *vx.Run, in input) {
 	case len(l.Writes) == 0 && rec.Code == 400:
 		res = "HReject"
 	case len(l.Writes) == 1 && l.Writes[0].Kind == "CREATE_TRANSACTION" && l.Writes[0].Script != nil:
-		got := *l.Writes[0].Script
-		if len(in.Postings) > 0 {
-			want := ledger.TxToScriptData(ledger.TransactionData{Postings: toPostings(in.Postings), Metadata: metaOf(in), Reference: in.Reference, Timestamp: tsOf(in)}, false)
-			if got.Plain == want.Plain && reflect.DeepEqual(got.Vars, want.Vars) && got.Reference == want.Reference &&
-				got.Timestamp.Equal(want.Timestamp) && metaEqual(got.Metadata, want.Metadata) {
-				res = "HPostings"
-			} else {
-				r.FailP("C09", "handler:"+in.API+":backend-receives-other-than-TxToScriptData-of-request", in, fmt.Sprintf("got %+v want %+v", got, want), size)
-			}
-		} else {
-			plain := ""
-			if in.Script != nil {
-				plain = *in.Script
-			}
-			if got.Plain == plain && got.Reference == in.Reference && got.Timestamp.Equal(tsOf(in)) && metaEqual(got.Metadata, metaOf(in)) {
-				res = "HScript"
-			} else {
-				r.FailP("C09", "handler:"+in.API+":script-request-altered", in, fmt.Sprintf("got %+v", got), size)
-			}
+		var differs string
+		res, differs = matchCall(in, *l.Writes[0].Script)
+		if res == "" && len(in.Postings) > 0 {
+			r.FailP("C09", "handler:"+in.API+":backend-receives-other-than-TxToScriptData-of-request", in, fmt.Sprintf("%s differs: got %+v", differs, *l.Writes[0].Script), size)
+		} else if res == "" {
+			r.FailP("C09", "handler:"+in.API+":script-request-altered", in, fmt.Sprintf("%s differs: got %+v", differs, *l.Writes[0].Script), size)
 		}
 	default:
 		r.FailP("C09", "handler:"+in.API+":unexpected-calls-or-status:"+cause, in, fmt.Sprintf("status %d writes %d", rec.Code, len(l.Writes)), size)
@@ -762,7 +852,48 @@ var goodAsset = []string{"USD", "USD", "EUR/2", "A", "ABCDEFGHIJKLMNOPQ", "X9/12
 var badAsset = []string{"usd", "USD/", "USD/1234567", "ABCDEFGHIJKLMNOPQR", "", "US D", "USD ", "1USD", "USD/2/3", "USD 1", " USD", "U$D", "USD/a", "É", "USD\n", "/2"}
 var amtPool = []string{"0", "0", "1", "2", "3", "5", "5", "5", "10", "10", "50", "100", "100", "999", "18446744073709551616", "18446744073709551617", "340282366920938463463374607431768211456", "1000000000000000000000000000000"}
 
+// assets that are prefixes of one another with digit tails, amounts that are short digit strings: the texts
+// asset+amount, amount+asset of different (asset, amount) pairs coincide often (USD,12 / USD1,2; USD/2,10 / USD/21,0)
+var prefixAssets = [][]string{{"USD", "USD1", "USD12", "USD11"}, {"USD/2", "USD/21", "USD/211", "USD/1"}, {"A", "A1", "A11", "A2", "A21"}}
+var digitAmounts = []string{"0", "1", "2", "10", "11", "12", "21", "112", "110", "211"}
+
 type gen struct{ r *vx.Rng }
+
+// collidingPostings: every posting funded from @world or from what came before; several (asset, amount) pairs whose
+// concatenated texts collide
+func (g *gen) collidingPostings(n int) []sPosting {
+	fam := prefixAssets[g.r.Intn(len(prefixAssets))]
+	accs := []string{"world", "a", "b", "c"}
+	var ps []sPosting
+	for i := 0; i < n; i++ {
+		amt := g.pick(digitAmounts)
+		src := "world"
+		if g.r.Chance(1, 4) {
+			src = accs[g.r.Intn(len(accs))]
+		}
+		ps = append(ps, sPosting{Source: bstr(src), Destination: bstr(accs[g.r.Intn(len(accs))]), Asset: bstr(g.pick(fam)), Amount: &amt})
+	}
+	if g.r.Chance(2, 3) { // a pair built to collide: (base, d1 d2 ..) and (base d1, d2 ..)
+		base := g.pick([]string{"USD", "USD/", "A", "EUR/1", "X9"})
+		tail := g.pick([]string{"12", "21", "110", "112", "10", "205"})
+		k := 1 + g.r.Intn(len(tail)-1)
+		if base == "USD/" {
+			base, tail = "USD/2", tail
+		}
+		a1, a2 := tail, tail[k:]
+		if len(a2) > 1 && a2[0] == '0' {
+			a2 = "0"
+			a1 = tail[:k] + "0"
+		}
+		p1 := sPosting{Source: "world", Destination: bstr(accs[1+g.r.Intn(3)]), Asset: bstr(base), Amount: &a1}
+		p2 := sPosting{Source: "world", Destination: bstr(accs[1+g.r.Intn(3)]), Asset: bstr(base + tail[:k]), Amount: &a2}
+		at := g.r.Intn(len(ps) + 1)
+		ps = append(ps[:at:at], append([]sPosting{p1}, ps[at:]...)...)
+		at2 := at + 1 + g.r.Intn(len(ps)-at)
+		ps = append(ps[:at2:at2], append([]sPosting{p2}, ps[at2:]...)...)
+	}
+	return ps
+}
 
 func (g *gen) pick(xs []string) string { return xs[g.r.Intn(len(xs))] }
 
@@ -926,6 +1057,9 @@ func (g *gen) scriptCase(i int) input {
 		n = 1
 	}
 	in := input{Kind: "script", Postings: g.postings(n, k, bad, bad > 0, false), Unbounded: g.r.Chance(1, 4)}
+	if i%10 == 1 || i%10 == 9 {
+		in.Postings = g.collidingPostings(2 + g.r.Intn(4))
+	}
 	if i%10 == 7 && g.r.Bool() { // many distinct amounts as well
 		for j := range in.Postings {
 			a := fmt.Sprint(j + 1)
@@ -964,6 +1098,8 @@ func one(r *vx.Run, in input) {
 		doReverse(r, in)
 	case "handler":
 		doHandler(r, in)
+	case "bulk":
+		doBulk(r, in)
 	}
 }
 
@@ -992,9 +1128,9 @@ func main() {
 		r.Finish()
 		return
 	}
-	nScript, nVal, nRev, nHandler, enumLen, nRand := 700, 300, 150, 450, 3, 400
+	nScript, nVal, nRev, nHandler, nBulk, enumLen, nRand := 700, 300, 150, 450, 150, 3, 400
 	if r.Thorough() {
-		nScript, nVal, nRev, nHandler, enumLen, nRand = 16000, 4000, 1500, 6000, 5, 6000
+		nScript, nVal, nRev, nHandler, nBulk, enumLen, nRand = 16000, 4000, 1500, 6000, 2500, 5, 6000
 	}
 	root := vx.NewRng(r.Seed)
 	for i := 0; i < nScript; i++ {
@@ -1028,6 +1164,24 @@ func main() {
 			in.Script = &s
 		}
 		g.envelope(&in)
+		one(r, in)
+	}
+	for i := 0; i < nBulk; i++ {
+		g := &gen{root.Fork()}
+		in := input{Kind: "bulk"}
+		for k := 2 + g.r.Intn(3); k > 0; k-- {
+			e := input{}
+			switch g.r.Intn(5) {
+			case 0: // a script element
+				sc := g.pick([]string{"send [USD 1] (\n source = @world\n destination = @a\n)", "vars { account $a }\nsend [USD 1] (source=@world destination=$a)"})
+				e.Script = &sc
+			case 1: // neither
+			default:
+				e.Postings = g.postings(1+g.r.Intn(3), 3, 0, false, false)
+			}
+			g.envelope(&e) // metadata, reference, timestamp independently present or absent
+			in.Elements = append(in.Elements, e)
+		}
 		one(r, in)
 	}
 	// addresses and assets: every short string over the characters that matter, boundary lengths, random long ones
